@@ -113,7 +113,7 @@ def cas_shard_text(hs):
 
 def entity(target):
     t = target.split("/")[0]
-    for p, e in (("acl-token", "acl-token"), ("autopilot", "autopilot"), ("cfg-", "config-entry"), ("ca-config", "ca-config"),
+    for p, e in (("rpc-cfg", "config-entry-rpc"), ("txn-shape", "txn"), ("acl-token", "acl-token"), ("autopilot", "autopilot"), ("cfg-", "config-entry"), ("ca-config", "ca-config"),
                  ("ca-roots-and-config", "ca-roots+config"), ("ca-roots", "ca-roots"), ("feature-gate", "feature-gate"),
                  ("kv-", "kv"), ("txn-kv", "kv"), ("txn-node", "node"), ("txn-service", "service"), ("txn-check", "check")):
         if t.startswith(p):
@@ -124,7 +124,8 @@ def entity(target):
 def signature(o):
     """structured signature of an oracle failure, computed from the observation"""
     sig = {"kind": o["oracle"], "entity": entity(o["target"]), "target": o["target"].split("/")[0],
-           "result": o["result"], "target_changed": o.get("target_changed", False)}
+           "result": o["result"], "target_changed": o.get("target_changed", False), "changed": o["changed"],
+           "present": o["present"], "payload_equal": o.get("payload_equal", False)}
     if o["oracle"] == "matched-not-applied":
         sig["present"] = o["present"]
         sig["supplied_zero"] = (o["supplied"] == 0)
@@ -175,8 +176,9 @@ def run(ctx):
     timing["harness_run_s"] = round(time.time() - t1, 1)
     t1 = time.time()
 
-    store = [h for h in hs if h["family"] == "store"]
-    cas = [h for h in hs if h["family"] == "cas"]
+    # mixed-case names are outside the models' vocabulary (they key by exact string): oracle only
+    store = [h for h in hs if h["family"] == "store" and not h.get("nocoq")]
+    cas = [h for h in hs if h["family"] == "cas" and not h.get("nocoq")]
 
     # ---- model vs implementation, inside Coq
     shards, texts = [], []
@@ -238,7 +240,7 @@ def run(ctx):
         # correspondence broken but the oracle was silent: search harder (fresh seed, 8x the random
         # histories, oracle only) for a concrete dishonest conditional write
         out2 = os.path.join(ctx.workdir, "search.jsonl")
-        nrand = 8 * (len(hs) - len([h for h in hs if h["mode"] == "cross"])) // 2
+        nrand = 8 * len([h for h in hs if h["mode"] == "random"]) // 2
         vlib.sh([binp, "-seed", str(ctx.seed + 7919), "-tier", ctx.tier, "-n", str(nrand), "-out", out2], timeout=3000)
         found = []
         for l in open(out2):
@@ -274,7 +276,8 @@ def run(ctx):
         "evaluations": sum(stats.values()),
         "distinct_nontrivial": len(distinct),
         "rule": "every conditional command type x pre-state {absent, present, deleted-and-recreated (singletons: rewritten)} x supplied index {zero, current, stale (an index the entity carried earlier, the old incarnation's for a recreated one), future} x payload {same, different, invalid (a write the store rejects)}, each on a fresh FSM; the composite roots+configuration and the feature-gate update over the product of BOTH expected indexes; then random histories of 6-20 (thorough: 6-36) commands on an accumulated state. evaluations = conditional commands judged by the oracle; distinct_nontrivial = distinct (command type, pre-state, index class, payload, presence, matched, result, changed) tuples. Every history is also evaluated in Coq (all results, state after every command for the cross product, final state for random histories)",
-        "histories": len(hs), "cross_product_cases": len(cross), "random_histories": len(hs) - len(cross),
+        "histories": len(hs), "oracle_only_histories": len([h for h in hs if h.get("nocoq")]),
+        "txn_shape_cases": len([h for h in hs if h["mode"] == "txn-shape"]), "cross_product_cases": len(cross), "random_histories": len([h for h in hs if h["mode"] == "random"]),
         "command_types": targets,
         "traces_validated_against_impl": len(hs) - len(mism),
         "model_mismatches": len(mism),
